@@ -41,11 +41,13 @@ def run(tier, replay):
             jobs.append((exes[2], ["rt", 16, 0, 4 * 32 + 17, 7, "rot"]))
             jobs.append((exes[2], ["rt", 3, 28, 36, 1, "all"]))
             jobs += [(exes[2], ["ff", T]) for T in (1, 2)]
+            jobs += [(exes[2], ["tails", T]) for T in (1, 2)]
         else:
             for b in (2, 3):
                 for T in (1, 2, 3, 4, 16):
                     jobs.append((exes[b], ["rt", T, 0, 4 * 16 * b + 17, 1, "all" if T in (2, 3) and b == 2 else "rot"]))
                     jobs.append((exes[b], ["ff", T]))
+                    jobs.append((exes[b], ["tails", T]))
         with cf.ThreadPoolExecutor(8) as ex:
             parts = list(ex.map(lambda j: wv.record(res, PID + "/j%d" % j[0], [j[1]]), enumerate(jobs)))
         events = [consts]
@@ -63,7 +65,7 @@ def run(tier, replay):
     nontriv = [k for k in keys if k[2] % 16 in (0, 1, 15) or k[2] % k[0] in (0, 1, k[0] - 1) or (k[2] + 16 - k[2] % 16) % k[0] == 0]
     res.cov.update({"traces_validated_against_impl": len(rts), "evaluations": len(events), "distinct_nontrivial": len(nontriv),
                     "distinct_configurations": len(keys),
-                    "rule": "design: TLC explores RoundTrip.tla for every n in 0..4S+17, S in {32,48,64}, T in {1,2,3,4,16} (symbolic bytes, ideal cipher; negative control EofPeek=FALSE must hang). Binding: real execute_encrypt/verify/decrypt (real threads, chunk override S=32 and in thorough S=48) for every n in 0..4S+17, T in {1,2,4,16} (thorough 1,2,3,4,16), (cmode,hmode) rotated over n (all 15 pairs for a band / for T in {2,3} in thorough), random keys, seeds of length {0,1,7,20,55,56,64,255}; each operation in a forked child with a 20 s limit. A configuration is (S,T,n,cm,hm); non-trivial = n at a block boundary (n mod 16 in {0,1,15}) or chunk boundary (n mod S in {0,1,S-1}, or padded length a multiple of S).",
+                    "rule": "design: TLC explores RoundTrip.tla for every n in 0..4S+17, S in {32,48,64}, T in {1,2,3,4,16} (symbolic bytes, ideal cipher; negative control EofPeek=FALSE must hang). Binding: real execute_encrypt/verify/decrypt (real threads, chunk override S=32 and in thorough S=48) for every n in 0..4S+17, T in {1,2,4,16} (thorough 1,2,3,4,16), (cmode,hmode) rotated over n (all 15 pairs for a band / for T in {2,3} in thorough), plaintexts that end like PKCS#7 padding (01 / 02 02 / a whole block of 10 / zeros / FF / the pad byte itself) at block and chunk boundaries, random keys, seeds of length {0,1,7,20,55,56,64,255}; each operation in a forked child with a 20 s limit. A configuration is (S,T,n,cm,hm); non-trivial = n at a block boundary (n mod 16 in {0,1,15}) or chunk boundary (n mod S in {0,1,S-1}, or padded length a multiple of S).",
                     "production_constants": {k: v for k, v in consts.items() if k not in ("e", "id")}, "exhaustive": False})
     for e in rts[:: max(1, len(rts) // 3)][:3]:
         res.sample(wv.shorten(e, 16))
